@@ -90,8 +90,22 @@ Theorem C15_request_unchanged_extract_partial : forall st opname k m m' C r,
 Proof. exact extract_request_unchanged. Qed.
 Print Assumptions C15_request_unchanged_extract_partial.
 
-(* ---- ClientForwardRefs: annotations keep their denotation [full]; deferred imports name the original
-        module for the repaired plugin [full], and NEVER do for the code as found [refuted, finding F24] ---- *)
+(* ---- ... and composed through the WHOLE pipeline, for every plugin list with ExtractOperations configured at
+        most once and freshly constructed: every method of the generated package sends what the unplugged method
+        sends, the document being resolved through the operations module that was written
+        [full; hypotheses: std_body of the unplugged methods, distinct constant names] ---- *)
+Theorem C15_request_unchanged : forall ps u p,
+  List.length (estates ps) <= 1 -> init_ok ps ->
+  Forall (fun o => std_body (uo_method o) = true) (u_ops u) ->
+  NoDup (map const_name (map uo_name (u_ops u))) ->
+  generate ps u = Some p ->
+  map (request_of (List.concat (pk_operations p))) (cm_methods (pk_client p)) = map op_req (u_ops u).
+Proof. exact request_unchanged_package. Qed.
+Print Assumptions C15_request_unchanged.
+
+(* ---- ClientForwardRefs: annotations keep their denotation [full]; only names imported from the package are
+        turned into strings [full]; every deferred import names the module the unplugged client imported the name
+        from [full] (was refuted on the tree before /repo 7b86743 — finding F24, fixed; regression Examples below) ---- *)
 Theorem C15_forward_refs_denotation : forall ic a, denote (fst (fr_ann ic a)) = denote a.
 Proof. exact forward_refs_denotation. Qed.
 Print Assumptions C15_forward_refs_denotation.
@@ -100,20 +114,20 @@ Theorem C15_forward_refs_only_local_names : forall ic a n,
   In n (snd (fr_ann ic a)) -> exists src, lookup n ic = Some src.
 Proof. exact fr_ann_names_local. Qed.
 
-Definition C15_forward_refs_sources_full (cfg : fr_cfg) : Prop := forall imports n from,
-  lookup n (fr_imported cfg imports) = Some from ->
+Theorem C15_forward_refs_sources : forall imports n from,
+  lookup n (fr_imported imports) = Some from ->
   exists i, In i imports /\ In n (i_names i) /\
             (i_level i = 1 -> starts_with_dot (i_module i) = false -> src_of 1 from = src_of (i_level i) (i_module i)).
+Proof. exact forward_refs_sources. Qed.
+Print Assumptions C15_forward_refs_sources.
 
-Theorem C15_forward_refs_sources_fixed : C15_forward_refs_sources_full fr_fixed.
-Proof. exact forward_refs_sources_fixed. Qed.
-Print Assumptions C15_forward_refs_sources_fixed.
-
-Theorem C15_forward_refs_sources_refuted : forall imports n from,
-  lookup n (fr_imported fr_current imports) = Some from ->
-  exists i, In i imports /\ In n (i_names i) /\ (i_level i = 1 -> src_of 1 from <> src_of (i_level i) (i_module i)).
-Proof. exact forward_refs_sources_refuted. Qed.
-Print Assumptions C15_forward_refs_sources_refuted.
+Theorem C15_forward_refs_sources_dotted : forall imports n from,
+  lookup n (fr_imported imports) = Some from ->
+  exists i, In i imports /\ In n (i_names i) /\
+            (forall m, i_level i = 0 -> i_module i = ("." ++ m)%string -> starts_with_dot m = false ->
+                       src_of 1 from = src_of (i_level i) (i_module i)).
+Proof. exact forward_refs_sources_dotted. Qed.
+Print Assumptions C15_forward_refs_sources_dotted.
 
 (* ---- a concrete package: witnesses, non-vacuity, order dependence ---- *)
 Definition P (n : string) (a : ann) : param := {| p_name := n; p_ann := Some a; p_default := None |}.
@@ -149,7 +163,7 @@ Definition consts (p : option package) : list (string * string) :=
 (* all four (+ identity) together: the hypotheses of the theorems above are met by a real run of the pipeline,
    the request is the unplugged one, the value is the projection, the import is deferred to the right module *)
 Example C15_all_plugins_example :
-  let p := generate [S0; E0; PIdentity; PForward fr_fixed; PNoReimports] mini in
+  let p := generate [S0; E0; PIdentity; PForward; PNoReimports] mini in
   option_map (request_of (consts p)) (first_method p) = Some (request_of [] mini_method) /\
   option_map result_expr (first_method p) = Some (Some (RAttr (RValidate "GetMe") "me")) /\
   option_map m_returns (first_method p) = Some (Some (ASub "Optional" [AConst "GetMeMe"])) /\
@@ -159,21 +173,43 @@ Example C15_all_plugins_example :
   std_body mini_method = true.
 Proof. vm_compute. repeat split. Qed.
 
-(* finding F24 on the code as found: the deferred import is `from ..get_me import GetMe` and TYPE_CHECKING comes
-   from the package-relative module `.typing` *)
-Theorem C15_forward_refs_typing_refuted :
-  let p := generate [PForward fr_current] mini in
-  option_map (fun m => hd_error (m_body m)) (first_method p) = Some (Some (SImport 1 ".get_me" "GetMe")) /\
-  src_of 1 ".get_me" = "..get_me" /\
+(* the hypotheses of C15_request_unchanged are met by that run *)
+Example C15_request_unchanged_hypotheses :
+  let ps := [S0; E0; PIdentity; PForward; PNoReimports] in
+  List.length (estates ps) = 1 /\ init_ok ps /\
+  Forall (fun o => std_body (uo_method o) = true) (u_ops mini) /\
+  NoDup (map const_name (map uo_name (u_ops mini))) /\
+  (exists p, generate ps mini = Some p) /\
+  map op_req (u_ops mini) = [Some ("query GetMe { me { id } }", "GetMe", "response = await self.execute(..)", "variables = {}")].
+Proof.
+  cbv zeta. split; [reflexivity|].
+  split; [intros st0 Hin; vm_compute in Hin; destruct Hin as [<-|[]]; repeat split|].
+  split; [repeat constructor|].
+  split; [repeat constructor; intros []|].
+  split; [eexists; vm_compute; reflexivity|vm_compute; reflexivity].
+Qed.
+
+(* regression examples for finding F24 (fixed by /repo 7b86743): the deferred import is `from .get_me import
+   GetMe` — one dot — and TYPE_CHECKING is imported from the absolute module `typing` (level 0), both in the
+   method body and in the TYPE_CHECKING block *)
+Example C15_forward_refs_regression_F24 :
+  let p := generate [PForward] mini in
+  option_map (fun m => hd_error (m_body m)) (first_method p) = Some (Some (SImport 1 "get_me" "GetMe")) /\
+  src_of 1 "get_me" = ".get_me" /\
+  option_map (fun pk => existsb (fun i => Nat.eqb (i_level i) 0 && String.eqb (i_module i) "typing"
+                                          && mem "TYPE_CHECKING" (i_names i))
+                                (cm_imports (pk_client pk))) p = Some true /\
   option_map (fun pk => existsb (fun i => Nat.eqb (i_level i) 1 && String.eqb (i_module i) "typing")
-                                (cm_imports (pk_client pk))) p = Some true.
+                                (cm_imports (pk_client pk))) p = Some false /\
+  option_map (fun pk => map (fun i => src_of (i_level i) (i_module i)) (cm_tc (pk_client pk))) p
+    = Some [".input_types"; ".get_me"].
 Proof. vm_compute. repeat split. Qed.
 
 (* order matters (documented model behaviour, not a defect): after ClientForwardRefs the return annotation is a
    string constant, so a ShorterResults placed later leaves every method alone *)
 Example C15_order_dependence :
-  option_map result_expr (first_method (generate [PForward fr_fixed; S0] mini)) = Some (Some (RValidate "GetMe")) /\
-  option_map result_expr (first_method (generate [S0; PForward fr_fixed] mini)) = Some (Some (RAttr (RValidate "GetMe") "me")).
+  option_map result_expr (first_method (generate [PForward; S0] mini)) = Some (Some (RValidate "GetMe")) /\
+  option_map result_expr (first_method (generate [S0; PForward] mini)) = Some (Some (RAttr (RValidate "GetMe") "me")).
 Proof. vm_compute. split; reflexivity. Qed.
 
 (* ShorterResults counts a field selected both directly and through a fragment twice: the result object has ONE
